@@ -36,6 +36,13 @@ files`` (the complete generation manifest, enough to rebuild the files) and wher
 * ``rt/descriptions/selected_wcs``       same for descriptions()
 * ``rt/descriptions_images/agree``       number / order (collection_id) / shape / WCS of descriptions() and images() differ
 * ``rt/export_simple/selected_hdu``      export_simple() != [(paths[i], sel(i))]
+* ``rt/collection_history/repeatable``   object history / call order: after the pass above (descriptions, images, export_simple,
+                                         in that order, each held against the manifest) the SAME collection object is asked again in
+                                         another order (``second_order``, one of 5 permutations / repetitions chosen by a checksum of
+                                         the selection), and -- route 'load' -- a FRESHLY loaded collection of the same selection is
+                                         asked in that other order first; every answer must equal the one of the first pass
+                                         (``what``, ``object`` 'same'|'fresh', ``file_pos``, ``observed``, ``first``).  quick: every
+                                         sixth selection (by checksum); thorough: every selection.
 * ``rt/cli/option_parse``                CollectionLoader got another scalar/list than the option text says (``observed``)
 * ``rt/tile_fits/selected_hdu``          tiles do not hold exactly the selected HDUs' pixels (or tile_fits raised / timed out)
 * ``rt/tile_fits/selected_wcs``          relative placement of two files' pixels contradicts the selected WCS solutions
@@ -426,6 +433,78 @@ def _wcs_matches(w, sol):
             and np.allclose(p["scale"], exp_scale, atol=1e-12))
 
 
+O_HIST = "rt/collection_history/repeatable"
+_ORDERS = (("images", "descriptions", "export_simple"), ("export_simple", "images", "descriptions"), ("images", "images", "descriptions"),
+           ("descriptions", "descriptions", "images"), ("images", "export_simple", "descriptions", "images"))
+
+
+def _gather(coll, what):
+    if what == "export_simple":
+        return [tuple(t) for t in coll.export_simple()]
+    items = []
+    for it in getattr(coll, what)():
+        d = {"shape": tuple(int(s) for s in it.shape), "wcs": it.wcs, "id": getattr(it, "collection_id", None)}
+        if what == "images":
+            d["data"] = np.array(it.asarray())
+        items.append(d)
+    return items
+
+
+def _digest(what, items):
+    if what == "export_simple":
+        return [[os.path.basename(p), k] for p, k in items]
+    out = []
+    for it in items:
+        d = [os.path.basename(str(it["id"])), list(it["shape"]), _wcs_params(it["wcs"]) if it["wcs"] is not None else None]
+        if what == "images":
+            a = np.ascontiguousarray(it["data"])
+            d.append([str(a.dtype), float(np.nansum(a.astype(np.float64))), float(a.ravel()[0]) if a.size else None])
+        out.append(d)
+    return out
+
+
+def _history_wanted(route, hdu_sel, wcs_sel):
+    import zlib
+    c = zlib.crc32(json.dumps([route, hdu_sel, wcs_sel]).encode())
+    return c, (os.environ.get("VERIF_TIER") == "thorough" or c % 6 == 0)
+
+
+def check_history(coll, first, route, paths, hdu_sel, wcs_sel, single_str, scratch):
+    """Second pass in another order on the same object, and (route 'load') on a freshly loaded collection.
+    ``first``: results of the first pass ({what: items | None})."""
+    c, wanted = _history_wanted(route, hdu_sel, wcs_sel)
+    if not wanted:
+        return []
+    order = _ORDERS[(c // 6) % len(_ORDERS)]
+    fails = []
+    objs = [("same", coll)]
+    if route == "load":
+        try:
+            objs.append(("fresh", _get_collection(route, paths, hdu_sel, wcs_sel, single_str, scratch)[0]))
+        except Exception:
+            pass            # building is judged by the first pass
+    for label, obj in objs:
+        for what in order:
+            if first.get(what) is None:
+                continue
+            try:
+                got = _digest(what, _gather(obj, what))
+            except Exception as e:
+                fails.append((O_HIST, {"what": what, "object": label, "second_order": list(order), "observed": repr(e), "first": "answered"},
+                              "%s() on the %s collection raised %r in the order %s although it answered in the first pass" % (what, label, e, list(order))))
+                break
+            want = _digest(what, first[what])
+            if got != want:
+                pos = next((i for i, (a, b) in enumerate(zip(got, want)) if a != b), min(len(got), len(want)))
+                fails.append((O_HIST, {"what": what, "object": label, "second_order": list(order), "file_pos": pos,
+                                       "observed": got[pos] if pos < len(got) else None, "first": want[pos] if pos < len(want) else None},
+                              "%s() asked in the order %s on %s answers differently from the first pass (descriptions, images, export_simple) at "
+                              "item %d: %r vs %r" % (what, list(order), "the same collection object" if label == "same" else "a freshly loaded collection",
+                                                     pos, got[pos] if pos < len(got) else None, want[pos] if pos < len(want) else None)))
+                break
+    return fails
+
+
 def check_selection(fs, paths, route, hdu_sel, wcs_sel, single_str, scratch):
     """One case: returns list of (obligation, extra, message)."""
     warnings.simplefilter("ignore")
@@ -523,6 +602,10 @@ def check_selection(fs, paths, route, hdu_sel, wcs_sel, single_str, scratch):
                     break
         if bad:
             fails.append((O_AGREE, {"observed": bad}, bad))
+    try:
+        fails += check_history(coll, results, route, paths, hdu_sel, wcs_sel, single_str, scratch)
+    except Exception as e:
+        fails.append((O_HIST, {"what": "?", "object": "?", "observed": repr(e)}, "second pass over the collection raised %r" % (e,)))
     return fails
 
 
@@ -671,6 +754,10 @@ def run(ctx):
               "image HDU; 2-3 WCS solutions per HDU)" % len(sets))
     ctx.bound("HDU selection: none, every scalar valid in all files, every per-file list of valid image HDUs if <= %d else %d seeded "
               "random ones; WCS key: none, every common scalar, %d seeded per-file lists" % (max_lists, max_lists, n_keylists))
+    ctx.bound("object history / call order: for every %s selection (by checksum) the collection object that answered descriptions(), images(), "
+              "export_simple() is asked again in one of 5 other orders (images first; export_simple first; images twice; descriptions twice; "
+              "images - export_simple - descriptions - images), and for route load a freshly loaded collection is asked in that other order "
+              "first; all answers must equal those of the first pass" % ("" if ctx.thorough else "sixth"))
     ctx.bound("routes: collection.load (list and single-str input) and `toasty view` CLI for every selection; `toasty tile-multi-tan` CLI "
               "for scalar selections; tile_fits end-to-end (TAN mode, parallel=1) for <= %d selections per set" % n_tf)
     ctx.bound("%d of these sets name THE SAME PATH more than once in the input list ([mef, mef], [mef, mef, other], [mef, other, mef], "
